@@ -451,6 +451,7 @@ type scDump struct {
 	sameSec  int // entries of the current second completing later than the block time
 	released *big.Int
 	owed     *big.Int
+	blocked  int // entries whose recipient is a blocked address
 }
 
 type scEntry struct {
@@ -481,8 +482,12 @@ func (w *world) scQueue(ctx sdk.Context) []scEntry {
 func (w *world) dumpSC(ctx sdk.Context, now time.Time) scDump {
 	var d scDump
 	d.released, d.owed = big.NewInt(0), big.NewInt(0)
-	var ts []string
+	var ts, blocked []string
 	for _, e := range w.scQueue(ctx) {
+		if w.h.App.BankKeeper.BlockedAddr(sdk.MustAccAddressFromBech32(e.u.Address)) {
+			blocked = append(blocked, fmt.Sprint(e.id))
+			d.blocked++
+		}
 		ts = append(ts, fmt.Sprintf("ShareClass.mkUnb %d %d %d %s", e.id, w.pid(sdk.MustAccAddressFromBech32(e.u.Address)), e.u.CompletionTime.UnixNano(), emit.Z(e.u.Amount.Amount.BigInt())))
 		d.ids = append(d.ids, int64(e.id))
 		if !e.u.CompletionTime.After(now) {
@@ -504,8 +509,8 @@ func (w *world) dumpSC(ctx sdk.Context, now time.Time) scDump {
 			}
 		}
 	}
-	d.term = fmt.Sprintf("{| sc_queue := %s; sc_mod_bond := %s; sc_released := %s |}", emit.List(ts),
-		emit.Z(w.h.Bal(ctx, w.mod, bond).BigInt()), emit.Z(d.released))
+	d.term = fmt.Sprintf("{| sc_queue := %s; sc_mod_bond := %s; sc_released := %s; sc_blocked := %s |}", emit.List(ts),
+		emit.Z(w.h.Bal(ctx, w.mod, bond).BigInt()), emit.Z(d.released), emit.List(blocked))
 	return d
 }
 
